@@ -167,6 +167,82 @@ Proof.
   destruct (send_queue a now c) as [c' k]. simpl in H0. exact H0.
 Qed.
 
+(* SendQueue, exactly: the record of [a] afterwards is the old one with LastSeen := now (same queue,
+   same contents), or a new record with a fresh queue identity and an empty queue; nothing else
+   changes; no queue is closed; identities are handed out in increasing order. *)
+Definition touch_rec (a : N) (now : Z) (nq : nat) (ro : option crec) : crec :=
+  match ro with Some r => set_seen r now | None => mkrec a now nq [] end.
+
+Lemma send_queue_full : forall a now c, cm_inv c ->
+  cm_inv (fst (send_queue a now c)) /\
+  rec_of (fst (send_queue a now c)) a = Some (touch_rec a now (next_qid c) (rec_of c a)) /\
+  snd (send_queue a now c) = c_qid (touch_rec a now (next_qid c) (rec_of c a)) /\
+  (forall b, b <> a -> rec_of (fst (send_queue a now c)) b = rec_of c b) /\
+  dead (fst (send_queue a now c)) = dead c /\
+  next_qid (fst (send_queue a now c)) = match rec_of c a with Some _ => next_qid c | None => S (next_qid c) end.
+Proof.
+  intros a now c Hinv. split; [apply send_queue_inv; auto|].
+  pose proof (cm_inv_nodup_addr _ Hinv) as Hnda.
+  pose proof (cm_inv_R c Hinv) as HR.
+  pose proof Hinv as (Hh & Hidx & Hks & Hlen & Hnd & Hb).
+  unfold send_queue. destruct (amap_get a (byAddr c)) as [i|] eqn:G.
+  - assert (Ha: addr_at (byAge c) i = Some a) by (apply Hidx; auto).
+    unfold addr_at in Ha. destruct (nth_error (byAge c) i) as [r|] eqn:Hr; [|discriminate].
+    simpl in Ha. assert (Ha' : c_addr r = a) by congruence. clear Ha.
+    assert (Hrec : rec_of c a = Some r).
+    { rewrite <- Ha'. apply rec_of_in; auto. eapply nth_error_In; eauto. }
+    rewrite Hrec.
+    simpl. set (r' := set_seen r now). set (l1 := set_nth i r' (byAge c)).
+    assert (Hi: i < length (byAge c)) by (eapply nth_error_lt; eauto).
+    assert (HR1: cmR (next_qid c) (dead c) (set_byAge c l1) l1).
+    { destruct HR as (_ & H2 & H3 & H4 & H5 & H6). unfold cmR, set_byAge; simpl.
+      split; auto. split; [| split; [auto | split; [| auto]]].
+      - intros b k. unfold l1. rewrite (addr_at_set_nth_same (byAge c) i r' r k Hr eq_refl). apply H2.
+      - unfold l1. rewrite cm_set_nth_length. auto. }
+    pose proof (cm_fix_sim _ _ _ _ i HR1) as HR2.
+    assert (Hi1: i < length l1) by (unfold l1; rewrite cm_set_nth_length; auto).
+    specialize (HR2 Hi1). destruct HR2 as (E1 & _ & _ & _ & E5 & E6).
+    destruct (lfix_spec crec rec_less rec_less_irrefl rec_less_trans rec_less_negtrans (byAge c) i r' Hh Hi) as [_ Hp2].
+    fold l1 in Hp2.
+    assert (Hnd1 : NoDup (map c_addr l1)).
+    { unfold l1. rewrite (map_set_nth_same _ _ c_addr (byAge c) i r' r Hr eq_refl). auto. }
+    assert (Hfind : forall b, rec_of (cm_heap_fix (set_byAge c l1) i) b =
+                              if N.eqb (c_addr r) b then Some r' else rec_of c b).
+    { intro b. unfold rec_of. rewrite E1.
+      rewrite <- (afind_perm b l1 _ Hnd1 (Permutation_sym Hp2)).
+      unfold l1. apply afind_set_nth; auto. }
+    split; [|split; [|split; [|split]]]; auto.
+    + rewrite Hfind, Ha', N.eqb_refl. reflexivity.
+    + intros b Hb'. rewrite Hfind. rewrite Ha'. destruct (N.eqb a b) eqn:E; auto.
+      apply N.eqb_eq in E. congruence.
+  - simpl. set (r := mkrec a now (next_qid c) []).
+    set (s1 := mkcm (byAge c) (byAddr c) (S (next_qid c)) (dead c)).
+    assert (HR1: cmR (S (next_qid c)) (dead c) s1 (byAge c)).
+    { destruct HR as (_ & H2 & H3 & H4 & H5 & H6). unfold cmR, s1; simpl. auto 10. }
+    pose proof (cm_push_sim _ _ _ _ r HR1 G) as HR2.
+    destruct HR2 as (E1 & _ & _ & _ & E5 & E6).
+    pose proof (lpush_perm crec rec_less (byAge c) r) as Hp2.
+    assert (Hfresh : forall y, In y (byAge c) -> c_addr y <> a).
+    { intros y Hy Ey. apply In_nth_error in Hy. destruct Hy as [k Hk].
+      assert (amap_get a (byAddr c) = Some k).
+      { apply Hidx. unfold addr_at. rewrite Hk. simpl. congruence. }
+      congruence. }
+    assert (Hrec : rec_of c a = None) by (unfold rec_of; apply afind_none_intro; auto).
+    rewrite Hrec.
+    assert (Hnd1 : NoDup (map c_addr (r :: byAge c))).
+    { simpl. constructor; auto. intro X. apply in_map_iff in X. destruct X as (y & Hy1 & Hy2).
+      apply (Hfresh y Hy2). auto. }
+    assert (Hfind : forall b, rec_of (cm_heap_push r s1) b =
+                              if N.eqb a b then Some r else rec_of c b).
+    { intro b. unfold rec_of. rewrite E1.
+      rewrite <- (afind_perm b (r :: byAge c) _ Hnd1 (Permutation_sym Hp2)).
+      reflexivity. }
+    split; [|split; [|split; [|split]]]; auto.
+    + rewrite Hfind, N.eqb_refl. reflexivity.
+    + intros b Hb'. rewrite Hfind. destruct (N.eqb a b) eqn:E; auto.
+      apply N.eqb_eq in E. congruence.
+Qed.
+
 (* ---------------------------------------------------------------- replacing one record's queue *)
 
 Lemma find_qid_nth : forall l i r, NoDup (map c_qid l) -> nth_error l i = Some r ->
